@@ -148,6 +148,9 @@ fn expression_keys() -> usize {
         (n("5", "integer"), None, Some(10)), (n("2.5", "decimal"), None, Some(5)), (n("7", "integer"), Some(n("0.5", "decimal")), Some(13)),
         (n("n/a", "string"), None, None), (n("zzz", "string"), None, None), (n("x", "anyURI"), None, None), (iri("x:a"), None, None), (bn("b1"), None, None),
         (n("1", "integer"), Some(n("3", "integer")), Some(-4)), (n("-2", "integer"), None, Some(-4)),
+        // small results of big-integer arithmetic (carried as big integers) next to native ones
+        (n("100000000000000000005", "integer"), Some(n("100000000000000000000", "integer")), Some(10)), (n("-100000000000000000003", "integer"), Some(n("-100000000000000000000", "integer")), Some(-6)),
+        (n("100000000000000000000", "integer"), Some(n("100000000000000000000", "integer")), Some(0)), (n("4", "integer"), None, Some(8)),
     ];
     let run = |sel: &[usize], order: &str| -> Vec<usize> {
         let mut d: Vec<[T; 4]> = vec![];
